@@ -364,6 +364,22 @@ def _trace_check(ctx, base):
         r["channel"] = ch
         r["hostile"] = s
         hostile.append(r)
+    # every reserved name that exists in the store, through every channel that can name an item
+    k = 0
+    for rn in ("/user/cal/e1.ics~", "/user/cal/.secret.ics", "/user/cal/.Radicale.props", "/user/.hiddencol/s.ics", "/user/.hiddencol/",
+               "/user/cal/.Radicale.cache/item/e1.ics"):
+        for m in ("GET", "DELETE", "PROPFIND", "PROPPATCH", "PUT"):
+            hostile.append(dict(method=m, path=rn, data=body_for(m, "rn%d" % k), login="user:", mark="hr%d-path" % k, channel="path", hostile=rn))
+            k += 1
+        hostile.append(dict(method="REPORT", path="/user/cal/", data=multiget([rn]), login="user:", mark="hr%d-href" % k, channel="href", hostile=rn))
+        k += 1
+        hostile.append(dict(method="MOVE", path=rn, login="user:", mark="hr%d-path" % k, channel="path", hostile=rn,
+                            headers={"HTTP_DESTINATION": "http://127.0.0.1/user/cal/out%d.ics" % k, "HTTP_HOST": "127.0.0.1"}))
+        k += 1
+        hostile.append(dict(method="PUT", path="/user/cal/mvr%d.ics" % k, data=EVENT % ("mvr%d" % k), login="user:", mark="hr%d-pre" % k))
+        hostile.append(dict(method="MOVE", path="/user/cal/mvr%d.ics" % k, login="user:", mark="hr%d-dest" % k, channel="dest", hostile=rn,
+                            headers={"HTTP_DESTINATION": "http://127.0.0.1" + rn, "HTTP_HOST": "127.0.0.1", "HTTP_OVERWRITE": "T"}))
+        k += 1
     reqs += hostile
     spec = os.path.join(base, "spec.json")
     outp = os.path.join(base, "out.json")
@@ -391,6 +407,8 @@ def _trace_check(ctx, base):
         if not (label.startswith("h") and label in req_by_mark):
             continue
         r = req_by_mark[label]
+        if "channel" not in r:
+            continue
         hostile_phases += 1
         ctx.case((r["method"], r.get("channel"), r.get("hostile")), nontrivial=True,
                  sample=dict(method=r["method"], channel=r.get("channel"), hostile=r.get("hostile")) if hostile_phases <= 3 else None)
